@@ -281,9 +281,9 @@ func CleanScopes(scopes []string) []string {
 		}
 	}
 
-	// sort and return
+	// sort, de-duplicate unrecognizable scopes, and return
 	slices.Sort(result)
-	return result
+	return slices.Compact(result)
 }
 
 // cleanActions removes the duplicated actions and sort in ascending order.
